@@ -6,7 +6,7 @@ LEVEL = "proof"
 TEXT = ("The gate's truth table (major 0: same major.minor; major >= 1: same major and minor not greater; patch/prerelease/build never matter; "
         "no version or non-semver build skips the check; a leading v is a parse error) is proved for ALL parsed versions with unbounded numbers; "
         "the parser model of x/mod/semver and the validator are run against the real YAML path + validator on a grid of (B, V) pairs, and the "
-        "implementation's verdicts are judged by an independent table written from docs/VERSION.md. main.go's handling of the linker-provided version is covered: pin_main_normalisation (regenerated condition and rewriting statement), linker_v_stripped / linker_gate (a leading v is dropped whenever the rest is a semantic version, whatever suffix it carries) and the CLI linked with -X main.version=… run end to end.")
+        "implementation's verdicts are judged by an independent table written from docs/VERSION.md. main.go's handling of the linker-provided version is covered: linker_v_stripped / linker_gate (a leading v is dropped whenever the rest is a semantic version, whatever suffix it carries) over normalizeBuild; the real buildVersion()/buildInfo() of package main (built with a probe file through -overlay) are run against normalizeBuild on a grid of several hundred to thousands of linker spellings; pin_main_handed (main() hands bv.GitVersion to the command); and the CLI linked with -X main.version=… run end to end.")
 TECHNIQUE = "Lean 4 theorems over the version-gate model (case analysis, omega) + model-vs-implementation correspondence on a (B,V) grid"
 LEAN_PROPS = ["C18"]
 TRUSTED = ["golang.org/x/mod/semver is modelled (Model/Semver.parse), tied by the correspondence run"]
@@ -98,6 +98,50 @@ def e2e(ctx):
     return violations, corr_fail, n
 
 
+def main_probe(ctx):
+    """main.go's own handling of the linker values, run for real: the package main of /repo is built with one extra file (overlay,
+    build tag verif) that feeds linker values to buildVersion()/buildInfo() and prints the results; compared with the model's
+    normalizeBuild and judged by the documented rule, on a grid of spellings far larger than the CLIs the e2e part links"""
+    import json
+    ov = os.path.join(core.CACHE, "overlay-main.json")
+    json.dump({"Replace": {os.path.join(core.REPO, "zz_verif_mainprobe.go"): os.path.join(core.VERIF, "tools", "mainprobe", "zz_verif_mainprobe.go.txt")}}, open(ov, "w"))
+    exe = os.path.join(core.CACHE, "mainprobe")
+    p = subprocess.run(["go", "build", "-tags", "verif", "-overlay", ov, "-o", exe, "."], cwd=core.REPO, env=core.GOENV, stdout=subprocess.PIPE, stderr=subprocess.STDOUT, text=True)
+    if p.returncode != 0:
+        raise core.TieBroken("mainprobe-build", p.stdout[-800:])
+    cores = ["1.4.2", "0.4.1", "1.4", "1", "01.2.3", "1.02.3", "1.2.3-rc.1", "1.2.3+b5", "1.2.3-rc.1+b5", "1.2.3-01", "1.2.3-", "1.2.3+", "dev", "", "1.2.3.4",
+             "(devel)", "10.20.30", "1.2.3-a..b", "1.2.3 ", " 1.2.3", "1.2.3-0a", "v1.2.3", "1.x.3", "1.2.3-\u00e9"]
+    rng = ctx.rng
+    for _ in range(60 if ctx.quick else 2000):
+        c = "%d.%d.%d" % (rng.randint(0, 30), rng.randint(0, 30), rng.randint(0, 30))
+        c += rng.choice(["", "", "-rc.%d" % rng.randint(0, 9), "+b%d" % rng.randint(0, 9), "-0%d" % rng.randint(0, 9), "-a+b.c", "+", ".7"])
+        cores.append(c)
+    linkers = [pre + c for c in cores for pre in ("", "v", "vv", "V", "v ")]
+    others = [{"Commit": "", "Dirty": "", "Date": "", "BuiltBy": ""}, {"Commit": "abc123", "Dirty": "true", "Date": "2024-01-01", "BuiltBy": "me"},
+              {"Commit": "abc123", "Dirty": "false", "Date": "", "BuiltBy": ""}, {"Commit": "", "Dirty": "maybe", "Date": "d", "BuiltBy": ""}]
+    reqs = [dict(others[k % len(others)], Version=l) for k, l in enumerate(linkers) if l != ""]
+    q = subprocess.run([exe], input="".join(json.dumps(r) + "\n" for r in reqs), env=dict(os.environ, VERIF_MAIN_PROBE="1"), stdout=subprocess.PIPE, stderr=subprocess.PIPE, text=True, timeout=300)
+    outs = [json.loads(l) for l in q.stdout.splitlines() if l.strip()]
+    violations, corr_fail = [], []
+    if q.returncode != 0 or len(outs) != len(reqs):
+        violations.append({"sig": "main-probe", "what": "probe of package main failed: exit %d, %d of %d answers: %s" % (q.returncode, len(outs), len(reqs), q.stderr[-300:])})
+        return violations, corr_fail, 0, 0
+    rm = ctx.model.ask_many([{"op": "normalizeBuild", "linker": r["Version"]} for r in reqs]) if ctx.have_model else [None] * len(reqs)
+    stripped = 0
+    for r, o, m in zip(reqs, outs, rm):
+        l = r["Version"]
+        want = normalize_linker(l)
+        stripped += want != l
+        if o["gitVersion"] != want:
+            violations.append({"sig": "linker-normalisation", "what": "linker version %r becomes %r; documented: one leading v is dropped iff the rest is a semantic version: %r" % (l, o["gitVersion"], want), "input": {"linker": l}})
+        if m is not None and m.get("ok") != o["gitVersion"] and len(corr_fail) < 10:
+            corr_fail.append({"op": "normalizeBuild", "req": {"linker": l}, "impl": o["gitVersion"], "model": m.get("ok")})
+        # the other linker values never touch the version
+        if not o["buildInfo"].startswith(o["gitVersion"]):
+            violations.append({"sig": "linker-normalisation", "what": "build info %r does not start with the version %r" % (o["buildInfo"], o["gitVersion"]), "input": r})
+    return violations, corr_fail, len(reqs), stripped
+
+
 def run(ctx):
     vs = versions(full=not ctx.quick)
     builds = (vs[::3] if not ctx.quick else vs[::2]) + NON_SEMVER_B
@@ -160,7 +204,12 @@ def run(ctx):
     violations += ev
     corr_fail += ec
     dist["e2e_linked_binaries_x_configs"] = en
-    return {"evaluations": len(reqs) + en, "distinct_nontrivial": len(nontriv),
+    pv, pc, pn, pstripped = main_probe(ctx)
+    violations += pv
+    corr_fail += pc
+    dist["main_go_linker_values"] = pn
+    dist["main_go_leading_v_dropped"] = pstripped
+    return {"evaluations": len(reqs) + en + pn, "distinct_nontrivial": len(nontriv),
             "rule": "grid majors {0,1,2,3,10} x minors {0,1,2,3,9,10,12,20,100} x patches x {release, prerelease, +build, both} for build and configuration, plus non-semver builds, absent version, malformed version strings and non-string YAML nodes; non-trivial = distinct ((B.major,B.minor),(V.major,V.minor)) pairs with both valid",
             "samples": [reqs[0], reqs[len(reqs) // 2], reqs[-1]], "distribution": dist, "violations": violations, "corr_fail": corr_fail,
             "exhaustive": not ctx.quick}
@@ -170,6 +219,7 @@ def replay(ctx, payload):
     i = payload["input"]
     if "linker" in i:
         vs, _, n = e2e(ctx)
+        vs += main_probe(ctx)[0]
         return {"evaluations": n, "distinct_nontrivial": n, "violations": vs, "samples": [i]}
     y = "version: %s\n" % gen.yaml_str(i["version"]) if i.get("version") is not None else "parameters: {}\n"
     a = ctx.impl.ask({"op": "version", "build": i["build"], "yaml": y})
